@@ -132,6 +132,7 @@ CHECKS["C19"] = {
     "assumptions": ["juju/ratelimit runs on the bubble's virtual clock (time.Now/time.Sleep)", "the bound includes one maximal message because a wire write is atomic"],
     "jobs": [
         {"pkg": SERVER, "run": "^TestVerif_C19_Rates$", "checks": {"quick": 100, "thorough": 8000}, "shards": {"thorough": 16}, "timeout": {"quick": 300}},
+        {"pkg": MUX, "run": "^TestVerif_C19_Valve$", "checks": {"quick": 300, "thorough": 30000}, "shards": {"thorough": 8}, "timeout": {"quick": 600}},
     ],
 }
 
